@@ -691,6 +691,11 @@ func c04Order(p *Prog, r *Report) {
 				}
 			}
 		})
+		if !boolMap {
+			if _, _, _, ok := recordMark(a); ok {
+				boolMap = true
+			}
+		}
 		if self && boolMap && app {
 			pd = a
 		}
@@ -735,26 +740,37 @@ func c04Order(p *Prog, r *Report) {
 	})
 	idP := pd.Params[0]
 	idIdx := 0
+	// the visited mark: generated[id] = true, or <record looked up by id>.<flag> = true
+	var markSet ssa.Instruction
+	markKey, markTestKey := "", ""
+	if genSet != nil && genLookup != nil {
+		markSet, markKey, markTestKey = genSet, sk(genSet.Key), sk(genLookup)
+		if sk(genLookup.Index) != markKey {
+			markSet = nil
+		}
+	} else if st, idKey, testKey, ok := recordMark(pd); ok {
+		markSet, markKey, markTestKey = st, idKey, testKey
+	}
 	for i, pa := range pd.Params {
-		if genSet != nil && sk(genSet.Key) == pa.Name() {
+		if markKey == pa.Name() {
 			idP, idIdx = pa, i
 		}
 	}
-	okTS := genLookup != nil && genSet != nil && sk(genLookup.Index) == idP.Name() && sk(genSet.Key) == idP.Name()
+	okTS := markSet != nil && markKey == idP.Name()
 	if okTS {
 		for _, c := range recs {
-			if !dominatesInstr(genSet, c) {
+			if !dominatesInstr(markSet, c) {
 				okTS = false
 			}
 		}
 		for _, a := range appends {
-			if !dominatesInstr(genSet, a) {
+			if !dominatesInstr(markSet, a) {
 				okTS = false
 			}
 		}
 		// the already-generated test returns immediately
-		rsSet := p.RelsAt(rm, genSet)
-		if !rsSet[sk(genLookup)+" == false"] {
+		rsSet := p.RelsAt(rm, markSet)
+		if !rsSet[markTestKey+" == false"] && !rsSet["false == "+markTestKey] {
 			okTS = false
 		}
 	}
@@ -768,7 +784,7 @@ func c04Order(p *Prog, r *Report) {
 		var extra []string
 		for k := range rs {
 			switch {
-			case genLookup != nil && strings.HasPrefix(k, sk(genLookup)):
+			case markTestKey != "" && (strings.HasPrefix(k, markTestKey) || k == "false == "+markTestKey):
 			case nameLk != nil && k == sk(nameLk)+"#1 == true":
 			case isLoopBoundFact(k):
 			default:
@@ -947,4 +963,46 @@ func isLoopBoundFact(k string) bool {
 	}
 	// exit condition of an earlier range loop: "len(…) <= (phi:rangeindex + 1)"
 	return strings.HasPrefix(k, "len(") && strings.HasSuffix(k, ") <= (phi:rangeindex + 1)")
+}
+
+// recordMark: the visited mark kept as a boolean field of a record that is looked up by one of f's parameters
+// (`d := s.byId[id]; if d.emitted { return }; d.emitted = true`). Returns the store, the key of the id
+// parameter and the key of the tested field.
+func recordMark(f *ssa.Function) (ssa.Instruction, string, string, bool) {
+	var st *ssa.Store
+	idKey, testKey := "", ""
+	for _, b := range f.Blocks {
+		for _, in := range b.Instrs {
+			s, ok := in.(*ssa.Store)
+			if !ok {
+				continue
+			}
+			c, isC := s.Val.(*ssa.Const)
+			if !isC || c.Value == nil || c.Value.String() != "true" {
+				continue
+			}
+			fa, ok := s.Addr.(*ssa.FieldAddr)
+			if !ok {
+				continue
+			}
+			// base: the value looked up in a map by a parameter
+			var lk *ssa.Lookup
+			switch x := fa.X.(type) {
+			case *ssa.Lookup:
+				lk = x
+			case *ssa.Extract:
+				lk, _ = x.Tuple.(*ssa.Lookup)
+			}
+			if lk == nil {
+				continue
+			}
+			for _, pa := range f.Params {
+				if sk(lk.Index) == pa.Name() {
+					st, idKey = s, pa.Name()
+					testKey = sk(fa.X) + "." + deref(fa.X.Type()).Underlying().(*types.Struct).Field(fa.Field).Name()
+				}
+			}
+		}
+	}
+	return st, idKey, testKey, st != nil
 }
